@@ -25,8 +25,18 @@ struct Tracking;
 static CUR: AtomicUsize = AtomicUsize::new(0);
 static PEAK: AtomicUsize = AtomicUsize::new(0);
 
+/// debugging aid (`C19_TRACE_ALLOC=1` in the worker): print a backtrace for huge allocations
+static TRACE: std::sync::atomic::AtomicBool = std::sync::atomic::AtomicBool::new(false);
+fn trace_big(size: usize) {
+	if size >= (64 << 20) && TRACE.swap(false, Ordering::SeqCst) {
+		eprintln!("BIG ALLOCATION of {} MiB at:\n{}", size >> 20, std::backtrace::Backtrace::force_capture());
+		TRACE.store(true, Ordering::SeqCst);
+	}
+}
+
 unsafe impl GlobalAlloc for Tracking {
 	unsafe fn alloc(&self, l: Layout) -> *mut u8 {
+		trace_big(l.size());
 		let p = System.alloc(l);
 		if !p.is_null() {
 			let c = CUR.fetch_add(l.size(), Ordering::Relaxed) + l.size();
@@ -39,6 +49,7 @@ unsafe impl GlobalAlloc for Tracking {
 		CUR.fetch_sub(l.size(), Ordering::Relaxed);
 	}
 	unsafe fn alloc_zeroed(&self, l: Layout) -> *mut u8 {
+		trace_big(l.size());
 		let p = System.alloc_zeroed(l);
 		if !p.is_null() {
 			let c = CUR.fetch_add(l.size(), Ordering::Relaxed) + l.size();
@@ -47,6 +58,7 @@ unsafe impl GlobalAlloc for Tracking {
 		p
 	}
 	unsafe fn realloc(&self, p: *mut u8, l: Layout, new: usize) -> *mut u8 {
+		trace_big(new);
 		let q = System.realloc(p, l, new);
 		if !q.is_null() {
 			if new >= l.size() {
@@ -352,6 +364,9 @@ fn decode_case(b: &[u8]) -> Option<Case> {
 
 fn worker_main() -> ! {
 	vt::engine::install_panic_hook();
+	if std::env::var("C19_TRACE_ALLOC").is_ok() {
+		TRACE.store(true, Ordering::SeqCst);
+	}
 	unsafe {
 		// address-space limit: a runaway allocation fails (and aborts) instead of swapping
 		let lim = libc::rlimit { rlim_cur: 12 << 30, rlim_max: 12 << 30 };
@@ -411,7 +426,7 @@ impl Worker {
 	fn spawn() -> Worker {
 		// /proc/self/exe keeps working when the file is replaced by a rebuild while the check runs
 		let exe = if std::path::Path::new("/proc/self/exe").exists() { std::path::PathBuf::from("/proc/self/exe") } else { std::env::current_exe().expect("current exe") };
-		let mut child = Command::new(exe).arg("--worker").stdin(Stdio::piped()).stdout(Stdio::piped()).stderr(Stdio::null()).spawn().unwrap_or_else(|e| vt::engine::die(&format!("cannot spawn worker: {e}")));
+		let mut child = Command::new(exe).arg("--worker").stdin(Stdio::piped()).stdout(Stdio::piped()).stderr(if std::env::var("C19_TRACE_ALLOC").is_ok() { Stdio::inherit() } else { Stdio::null() }).spawn().unwrap_or_else(|e| vt::engine::die(&format!("cannot spawn worker: {e}")));
 		let stdin = child.stdin.take().unwrap();
 		let stdout = BufReader::new(child.stdout.take().unwrap());
 		Worker { child, stdin, stdout }
@@ -920,7 +935,46 @@ fn cases(entry: Entry) -> BoxedStrategy<Case> {
 				})
 				.0
 			});
-			prop_oneof![10 => text_case(seed.boxed(), "pmtiles"), 1 => random].boxed()
+			// a leaf directory that points to itself (internal compression "none" makes the bytes
+			// self-describing: one entry, run length 0, offset 0, length = its own length)
+			let cyclic = (0u64..100, 0u8..3, any::<bool>()).prop_map(move |(id, variant, via_root)| {
+				let mut dir = vec![1u8];
+				put_varint(&mut dir, id);
+				dir.push(0); // run length 0 = leaf pointer
+				let len_pos = dir.len();
+				dir.push(0); // length, patched below
+				dir.push(1); // offset 0 (+1)
+				dir[len_pos] = dir.len() as u8;
+				let mut root = dir.clone();
+				if !via_root {
+					// root is an ordinary pointer to the leaf; only the leaf is cyclic
+					root = dir.clone();
+				}
+				let meta = b"{}".to_vec();
+				let mut file = vec![0u8; 127];
+				let root_r = (file.len() as u64, root.len() as u64);
+				file.extend_from_slice(&root);
+				let meta_r = (file.len() as u64, meta.len() as u64);
+				file.extend_from_slice(&meta);
+				let leaf_r = (file.len() as u64, dir.len() as u64);
+				file.extend_from_slice(&dir);
+				if variant == 1 {
+					file.extend_from_slice(&dir);
+				}
+				let data_r = (file.len() as u64, 0u64);
+				let mut h = b"PMTiles\x03".to_vec();
+				for v in [root_r.0, root_r.1, meta_r.0, meta_r.1, leaf_r.0, leaf_r.1, data_r.0, data_r.1, 1, 1, 1] {
+					h.extend_from_slice(&v.to_le_bytes());
+				}
+				h.extend_from_slice(&[1, 1, 1, 2, 0, 3]);
+				h.extend_from_slice(&[0u8; 16]);
+				h.push(0);
+				h.extend_from_slice(&[0u8; 8]);
+				h.resize(127, 0);
+				file[..127].copy_from_slice(&h);
+				Case { entry, data: file, files: vec![], origin: "cyclic-leaf".into() }
+			});
+			prop_oneof![20 => text_case(seed.boxed(), "pmtiles"), 2 => random, 1 => cyclic.boxed()].boxed()
 		}
 		Entry::TarFile => {
 			let seed = (small_spec(gen::all_pairs()), any::<u32>()).prop_map(|(spec, seed)| codec::tar::encode(&spec.materialise(), &vt::sources::layout_tar(seed)));
